@@ -121,7 +121,7 @@ func c20File(path, pkg, syntaxName string) *descriptorpb.FileDescriptorProto {
 	}
 	fd.EnumType = []*descriptorpb.EnumDescriptorProto{
 		{Name: proto.String("E"), Value: []*descriptorpb.EnumValueDescriptorProto{ev("E0", 0), ev("E1", 1), ev("E5", 5), ev("EM", -2), ev("EMAX", 2147483647), ev("EMIN", -2147483648)}},
-		{Name: proto.String("F"), Value: []*descriptorpb.EnumValueDescriptorProto{ev("F0", 0), ev("F1", 1)}},
+		{Name: proto.String("F"), Value: []*descriptorpb.EnumValueDescriptorProto{ev("F0", 0), ev("F1", 1), ev("F6", 6)}},
 	}
 	tname := "." + pkg + ".T"
 	t := &descriptorpb.DescriptorProto{Name: proto.String("T")}
@@ -154,7 +154,20 @@ func c20File(path, pkg, syntaxName string) *descriptorpb.FileDescriptorProto {
 			num++
 		}
 	}
-	fd.MessageType = []*descriptorpb.DescriptorProto{t, k}
+	// fields of the same kind as r_enum / r_msg (and the maps) but of a different domain:
+	// another enum type (F has the number 6, E does not; E has 5, F does not), another message type
+	uname := "." + pkg + ".U"
+	u := &descriptorpb.DescriptorProto{Name: proto.String("U")}
+	u.Field = []*descriptorpb.FieldDescriptorProto{c20Field("i", 1, descriptorpb.FieldDescriptorProto_TYPE_INT32, opt, "")}
+	k.Field = append(k.Field, c20Field("r_enumf", num, descriptorpb.FieldDescriptorProto_TYPE_ENUM, rep, "."+pkg+".F"))
+	num++
+	c20MapField(k, kname, "mv_enumf", num, descriptorpb.FieldDescriptorProto_TYPE_STRING, descriptorpb.FieldDescriptorProto_TYPE_ENUM, "."+pkg+".F")
+	num++
+	k.Field = append(k.Field, c20Field("r_msgu", num, descriptorpb.FieldDescriptorProto_TYPE_MESSAGE, rep, uname))
+	num++
+	c20MapField(k, kname, "mv_msgu", num, descriptorpb.FieldDescriptorProto_TYPE_STRING, descriptorpb.FieldDescriptorProto_TYPE_MESSAGE, uname)
+	num++
+	fd.MessageType = []*descriptorpb.DescriptorProto{t, k, u}
 	return fd
 }
 
@@ -233,6 +246,8 @@ func c20NewEnv() (*c20Env, error) {
 		"K":      md(s.p2, "K"),
 		"E":      ed(s.p2, "E"),
 		"F":      ed(s.p2, "F"),
+		"U":      md(s.p2, "U"),
+		"U3":     md(s.p3, "U"),
 		"T3":     md(s.p3, "T"),
 		"K3":     md(s.p3, "K"),
 		"E3":     ed(s.p3, "E"),
